@@ -246,7 +246,7 @@ CHECKS = {
              'through a drop guard that owns the path and is disarmed only immediately before Ok exits; lexer rewrite rule; type '
              'parameters whose names the generated code spells out are part of the cache key; enum settings are rendered '
              'injectively (different variants differ, payloads are rendered); the token-map builder removes its output on every '
-             'failing exit as well; no failing exit of the lexer build precedes the nested parser build (1 known finding).',
+             'failing exit as well; no failing exit of the lexer build precedes the nested parser build (1 known finding). Before the output path is claimed nothing can fail but the refusal to generate two files to one path (found the defect fixed in /repo e2492ae).',
         note='Necessary conditions for "ends in the state a clean build would". Equality with a clean build across arbitrary '
              'file-system histories / clock granularity is NOT decided. 4 known findings (a lexer failure before the nested parser build leaves the parser file; settings that bypass the cache: the '
              'inspect_rt callback that validates test_files, and the unstable in-memory grammar sources). Trusted: std::fs semantics; ' + TB,
